@@ -814,6 +814,58 @@ func TestFaultingCheckFunction(t *testing.T) {
 	evid.Exhaustive("context x loader: a call on which the registered check function faults", n)
 }
 
+// TestArgumentKindPositions: a builtin call whose argument is of the wrong kind is rejected with an error that points
+// at the call or at that very argument - not at a neighbouring argument, not at another line.
+func TestArgumentKindPositions(t *testing.T) {
+	cases := []struct{ pre, bad, post string }{
+		{"replace(key, ", "1", ", \"b\")"}, {"replace(key, \"a\", ", "true", ")"}, {"replace(key, ", "k2", ", \"b\")"}, {"replace(key, \"a\", ", "[1]", ")"},
+		{"datetime(t, \"ms\", ", "-1.5", ")"}, {"datetime(t, ", "5", ", \"RFC3339\")"}, {"datetime(t, \"ms\", ", "fmt", ")"},
+		{"xml(doc, ", "nil", ", field)"}, {"xml(doc, \"/a\", ", "5", ")"}, {"xml(doc, ", "xp", ", field)"},
+		{"grok(_, ", "5", ")"}, {"cast(k, ", "5", ")"}, {"add_pattern(", "1", ", \"x\")"}, {"add_pattern(\"a\", ", "2", ")"}, {"default_time(k, ", "5", ")"}, {"strfmt(k, ", "5", ", 1)"}, {"use(", "1", ")"},
+		{"set_measurement(k, ", "\"yes\"", ")"}, {"rename(", "5", ", k)"}, {"rename(k, ", "5", ")"},
+	}
+	layouts := []func(pre, bad, post string) string{
+		func(a, b, c string) string { return a + b + c },
+		func(a, b, c string) string { return "x = 1\nif x == 1 {\n  " + a + b + c + "\n}" },
+		func(a, b, c string) string { return strings.ReplaceAll(a, ", ", ",\n   ") + b + strings.ReplaceAll(c, ", ", ",\n   ") },
+		func(a, b, c string) string { return "y = [0, len([" + a + b + c + "])]" },
+	}
+	n := 0
+	for ci, c := range cases {
+		for li, lay := range layouts {
+			src := lay(c.pre, c.bad, c.post)
+			marker := lay(c.pre, "\x00", c.post)
+			at := strings.Index(marker, "\x00")
+			fname := c.pre[:strings.Index(c.pre, "(")]
+			callAt := strings.LastIndex(src[:at], fname+"(")
+			err, crash := loadV1(src)
+			rp := replay{Src: src, Offender: c.bad, Span: [2]int{at, at + len(c.bad)}, Expect: "rejected"}
+			if crash != nil {
+				rk.Fail(t, "arg-positions", rp, "v1 loader panicked: %s", crash.Value)
+			}
+			if err == nil {
+				evid.Discard("argument-kind-accepted:" + fname)
+				continue // whether this kind is admitted there is the offender table's business
+			}
+			pe := impl.PlErr(err)
+			if pe == nil || len(pe.PosChain) == 0 {
+				rk.Fail(t, "arg-positions", rp, "rejection without a position: %v", err)
+			}
+			p := pe.PosChain[0]
+			inArg := p.Pos >= at && p.Pos < at+len(c.bad)
+			if !inArg && p.Pos != callAt {
+				rk.Fail(t, "arg-positions", rp, "v1: the error %q is reported at offset %d (%d:%d); the offending argument %s is at [%d,%d), the call at %d\nscript:\n%s", pe.Err, p.Pos, p.Ln, p.Col, c.bad, at, at+len(c.bad), callAt, src)
+			}
+			if ln, col := impl.LnCol(src, p.Pos); ln != p.Ln || col != p.Col {
+				rk.Fail(t, "arg-positions", rp, "v1: error offset %d says %d:%d, is at %d:%d", p.Pos, p.Ln, p.Col, ln, col)
+			}
+			evid.Case(fmt.Sprintf("argpos/%d/%d", ci, li), true, "argument-kind-positions")
+			n++
+		}
+	}
+	evid.Exhaustive("builtin argument of the wrong kind x layout: where the error points", n)
+}
+
 func TestFixedOffenders(t *testing.T) {
 	cases := []struct {
 		src  string
